@@ -108,6 +108,12 @@ FanOutShared(u) ==
      sp \in Steps1, op \in {0, 1}, s1 \in StepSeqsS, s2 \in Steps1, o2 \in {0, 1}, ip \in BOOLEAN,
      ch \in {<<Pass>>, <<Fix(1)>>, <<Pass, Pass>>, <<Fix(2), Pass>>},
      ord \in {<<1, 2, 3>>, <<2, 1, 3>>, <<3, 2, 1>>, <<2, 3, 1>>}}
+(* ... plus a third reader behind a push-based (no-branch) adapter on the same output *)
+FanOut3Shared(u) ==
+  {MkCfg(<<TimeC(sp, 0, FALSE, <<>>), TimeC(s1, 0, FALSE, <<Lk(1, ch)>>), TimeC(s2, o2, FALSE, <<Lk(1, ch)>>),
+           TimeC(s3, 0, FALSE, <<Lk(1, <<Buf(bk)>>)>>)>>, ord, 6, "dag", "fanout3shared") @@ [shared |-> TRUE] :
+     sp \in {<<1>>, <<2>>}, s1 \in {<<1>>, <<2>>}, s2 \in {<<1>>, <<3>>}, s3 \in {<<1>>, <<2>>}, o2 \in {0, 1},
+     ch \in {<<Pass>>, <<Fix(1)>>}, bk \in {"linear", "next"}, ord \in Perms4}
 (* fan-out behind a pull-based component (its single input is one end      *)
 (* point of the producer's history)                                        *)
 PullFanOut(u) ==
@@ -282,6 +288,7 @@ CfgSpace(f) ==
     [] f = "wsum"       -> WSum(0)
     [] f = "pulltwice"  -> PullTwice(0)
     [] f = "fanoutshared" -> FanOutShared(0)
+    [] f = "fanout3shared" -> FanOut3Shared(0)
     [] f = "repeatinteg" -> RepeatInteg(0)
     [] f = "sinkfan"    -> SinkFan(0)
     [] f = "lateidle"   -> LateIdle(0)
@@ -290,6 +297,6 @@ CfgSpace(f) ==
 
 AllFamilies == {"pair", "pairL", "pairXL", "pair3", "chain3t", "chain3p", "fanin2", "fanin1",
                 "fanout", "pullfanout", "diamondt", "diamondp", "pullchain2", "ring2", "ring3",
-                "ring4", "pullring", "pullringtail", "ringbreak", "wsum", "pulltwice", "ring2tail", "fanoutshared", "repeatinteg", "sinkfan", "lateidle", "ringfanin"}
+                "ring4", "pullring", "pullringtail", "ringbreak", "wsum", "pulltwice", "ring2tail", "fanoutshared", "repeatinteg", "sinkfan", "lateidle", "ringfanin", "fanout3shared"}
 
 =============================================================================
